@@ -48,6 +48,10 @@ SPECIAL = [
 
 
 def build(src):
+    return U.reorder_delta(_build(src), src)
+
+
+def _build(src):
     if src["kind"] == "tm_trans":
         return U.make_tm(src["Q"], src["S"], list(src["G"]), {(t[0], t[1]): (t[2], t[3], t[4]) for t in src["T"]},
                          src["q0"], src["qa"], src["qr"], "_")
